@@ -18,7 +18,7 @@ func init() {
 			"(c) the fetch's failure edge returns a non-nil error derived from the fetch error; (d) block-event handlers store (Block, Slot) of the same event; " +
 			"(e) every delete on the map is guarded by slot < minSlot with minSlot = FirstSlotOfEpoch(CurrentEpoch()-margin), the subtraction is guarded, lock pairing and guarded-by hold for the map. " +
 			"NOT decided: that the beacon node's header belongs to the root; the size of the retention window; interleavings.",
-		Rule: "one obligation per (rule, return/store/delete/handler site) in the implementers of BlockRootToSlot/SetBlockRootToSlot and the functions touching the blockRootToSlot map; non-trivial = the site exists in the code and a path/provenance query was evaluated for it",
+		Rule:        "one obligation per (rule, return/store/delete/handler site) in the implementers of BlockRootToSlot/SetBlockRootToSlot and the functions touching the blockRootToSlot map; non-trivial = the site exists in the code and a path/provenance query was evaluated for it",
 		Assumptions: []string{"go-eth2-client returns a non-nil response with non-nil Data.Header.Message when err == nil (library decoder contract)"},
 	})
 }
